@@ -86,6 +86,23 @@ names, type ban on everything implemented in C, allow-list of Python-level
 callables plus named builtins.  Same obtain x wrapper x site grammar; the twin
 render (policy not armed) must run the callable, the armed render must give
 zero observed invocations and SecurityError.
+
+Seventh part, *decorated callables*: the object the template calls is the
+product of a decorator chain (functools.wraps / update_wrapper wrappers, with
+and without the __dict__ copy, two layers, lru_cache / cache, singledispatch,
+partial / partialmethod, contextlib.contextmanager functions, bound / class /
+static methods whose function is a wrapper, class based decorators, callable
+objects and classes whose __wrapped__ points at an unrelated function,
+pass_context above and below a wrapper; vt/gen/c18_wrapped.py).  The marker
+(unsafe, alters_data, the attribute or the object identity an overridden
+is_safe_callable looks at) sits on the outer object, on the innermost function
+before or after decorating, on both, on the middle layer, or says False on the
+outer object and True on the innermost function.  The verdict is computed, not
+tabulated: the documented rule is applied to the object the template calls
+(attribute lookup on that object / the override's view of that object); what
+the decorator copied onto its product counts.  Refused -> 0 invocations and
+SecurityError; not refused -> the call runs without SecurityError.  Same
+obtain x wrapper x site grammar, marker-free twin of the same chain must run.
 """
 from __future__ import annotations
 
@@ -93,6 +110,7 @@ import functools
 import json
 
 from vt.gen import c18_ccall as CC
+from vt.gen import c18_wrapped as WR
 
 PID = "C18"
 LEVEL = "exploration"
@@ -103,7 +121,9 @@ TECHNIQUE = ("recording unsafe callables with an unmarked control twin over a co
              "twin oracle over names resolved by engine helpers (i18n `_` alias, trans tag) and shadowed "
              "builtin/special names in environments with extensions loaded; the same twin oracle over "
              "C-implemented callables (observed through container side effects / recording arguments) "
-             "under deny-list, type-ban and allow-list overrides of is_safe_callable")
+             "under deny-list, type-ban and allow-list overrides of is_safe_callable; the twin oracle over "
+             "products of 24 decorator chains x 6 marker positions x 4 marks with the verdict computed from "
+             "the documented rule applied to the called object (both directions)")
 RULE = ("case = (obtain form x alias wrapper x call site x argument form x callable kind x mark "
         "x environment kind x sync/async x extension set [do only / i18n+do+loopcontrols+debug with "
         "gettext callables absent, old-style, new-style]); base coverage enumerates every (site, kind, mark) and "
@@ -148,8 +168,23 @@ RULE = ("case = (obtain form x alias wrapper x call site x argument form x calla
         "every (site, kind) once with rotating policy / obtain / wrapper (quick: non-print sites by seed "
         "parity) and every (obtain, wrapper, policy) at the print site, plus seeded sampling; counted only "
         "when the same template with the policy not armed is OBSERVED to run the callable and the armed "
-        "policy rejects the target when asked directly")
-LEVEL_TEXT = ("C-level callables: 0 observed invocations and SecurityError on every reached (kind, policy, "
+        "policy rejects the target when asked directly; decorated-callable cases = (decorator chain [24: "
+        "functools.wraps, update_wrapper, wraps without __dict__ copy, two wraps layers, wraps over lru_cache, "
+        "lru_cache over wraps, lru_cache with and without arguments, cache, singledispatch, partial, partial of "
+        "a wrapper, wrapper of a partial, partialmethod, contextmanager function, bound method / classmethod / "
+        "staticmethod of a wrapper, bound method of an lru_cache, class based decorator with update_wrapper, "
+        "callable object / instantiated class with __wrapped__ pointing at an unrelated function, pass_context "
+        "over / under a wrapper] x marker position [outer object, innermost function before decorating, "
+        "innermost function after decorating, both, middle layer, outer False + innermost True] x mark "
+        "[unsafe, alters_data, override attribute, override identity deny-list] x obtain x wrapper x site x "
+        "arguments x environment kind x sync/async x extension set): every (chain, position, mark) row with "
+        "3 (thorough: 8) rotating sites, the first at the print site, plus seeded sampling; counted only when "
+        "the marker-free twin of the same chain is invoked; expected verdict = the documented rule applied "
+        "to the object the template calls")
+LEVEL_TEXT = ("decorated callables: on every reached (chain, marker position, mark) row the call was refused "
+              "(0 invocations, SecurityError) iff the called object itself shows a true marker / is rejected "
+              "by the override, and ran otherwise; "
+              "C-level callables: 0 observed invocations and SecurityError on every reached (kind, policy, "
               "path) case of a C-implemented callable an overridden policy rejects; "
               "flag combinations: on every reached (placement, unsafe_callable, alters_data) row the call was "
               "refused iff one of the two attributes is True; "
@@ -169,6 +204,7 @@ ASSUMPTIONS = [
     "C-level callables: invocation is observed through effects visible from the harness (growth of the container a bound method belongs to, a counter on the recording Python object passed as the argument); callables without such an effect (os.getcwd ...) are not generated; the recording object's protocol methods are run by nothing but the target call (it appears in the template only as that call's argument); under the type-ban and allow-list policies a template that itself calls a C-level builtin (range, dict.items ...) before the target is refused there, which satisfies the oracle and is counted apart (ccall_target_rejected_by_override counts the cases where the override was asked about the target itself)",
     "resolved names: a call the engine makes because the template wrote `_(...)` or a trans block counts as a call written in the template (`_` is documented as the alias of gettext and trans as calling gettext/ngettext/pgettext/npgettext); the callable is bound to the name by the template, the render data or env.globals. Translation callables the application registers through install_gettext_callables / install_null_translations are application hooks and are never marked",
     "flag combinations: the attribute values are the booleans True / False or the attribute is absent (other truthy values are not generated); 'on the object the template calls' means ordinary attribute lookup on that object (instance, then class, then base classes; a bound method shows the attributes of its function), which is how both documented markers (the unsafe decorator, func.alters_data = True) are written; attributes set only on the __call__ function of a callable object are not generated",
+    "decorated callables: the verdict is that of the object the template calls: is_safe_callable documents 'callables are considered safe unless decorated with unsafe' and 'func.alters_data = True', both attributes of the called object; a marker on a function that the called object merely wraps counts only when the decorator copied it onto its product (functools.update_wrapper copies __dict__; partial, partialmethod and updated=() do not), and __wrapped__ is not followed. The identity deny-list override rejects exactly the listed objects. Invocation is recorded in the innermost function (the caches and partial are C code), for contextmanager functions in a plain function that returns the generator, for __wrapped__-elsewhere objects in the called object; arguments are hashable and include one positional argument (singledispatch)",
     "extensions other than i18n, do, loopcontrols and debug are not loaded; only the resolved-name part runs with more than the do extension",
     "histories also require the reverse direction: once a mark or deny-list entry is removed the call must be let through again (reported under history-wrongly-blocked keys)",
 ]
@@ -197,6 +233,17 @@ FLOORS = {
                            "flag_cases": 270, "flag_security_errors": 180, "flag_allowed_calls": 90,
                            "flag_both_attributes_present_cases": 170,
                            "flag_one_false_other_true_cases": 85, "flag_async_cases": 75,
+                           "wrapped_cases": 450, "wrapped_security_errors": 250, "wrapped_allowed_calls": 200,
+                           "wrapped_refused_though_innermost_unmarked": 100,
+                           "wrapped_allowed_though_innermost_marked": 180,
+                           "wrapped_dunder_wrapped_cases": 380, "wrapped_async_cases": 120,
+                           "wrapped_override_env_cases": 280,
+                           "wrapped_mark:unsafe": 120, "wrapped_mark:alters": 120,
+                           "wrapped_mark:override": 120, "wrapped_mark:deny_object": 75,
+                           "wrapped_position:outer": 95, "wrapped_position:inner_before": 70,
+                           "wrapped_position:inner_after": 95, "wrapped_position:both": 95,
+                           "wrapped_position:middle": 20, "wrapped_position:outer_false_inner_true": 70,
+                           **{"wrapped_chain:" + c: 15 for c in WR.CHAINS},
                            "ccall_cases": 600, "ccall_security_errors": 600,
                            "ccall_target_rejected_by_override": 550, "ccall_async_cases": 170,
                            "ccall_controls_ok": 12,
@@ -229,6 +276,19 @@ FLOORS = {
                               "flag_allowed_calls": 1850,
                               "flag_both_attributes_present_cases": 3300,
                               "flag_one_false_other_true_cases": 1700, "flag_async_cases": 1600,
+                              "wrapped_cases": 1920, "wrapped_security_errors": 1020,
+                              "wrapped_allowed_calls": 840,
+                              "wrapped_refused_though_innermost_unmarked": 420,
+                              "wrapped_allowed_though_innermost_marked": 780,
+                              "wrapped_dunder_wrapped_cases": 1680, "wrapped_async_cases": 540,
+                              "wrapped_override_env_cases": 1200,
+                              "wrapped_mark:unsafe": 510, "wrapped_mark:alters": 510,
+                              "wrapped_mark:override": 510, "wrapped_mark:deny_object": 310,
+                              "wrapped_position:outer": 390, "wrapped_position:inner_before": 300,
+                              "wrapped_position:inner_after": 390, "wrapped_position:both": 390,
+                              "wrapped_position:middle": 70,
+                              "wrapped_position:outer_false_inner_true": 300,
+                              **{"wrapped_chain:" + c: 70 for c in WR.CHAINS},
                               "ccall_cases": 4000, "ccall_security_errors": 4000,
                               "ccall_target_rejected_by_override": 3600, "ccall_async_cases": 1000,
                               "ccall_controls_ok": 12,
@@ -514,9 +574,12 @@ def new_env(kind, is_async, extensions=("jinja2.ext.do",), i18n="none"):
     else:
         class cls(SandboxedEnvironment):
             vt_denied = frozenset()
+            vt_denied_objs = ()
 
             def is_safe_callable(self, obj):
                 if getattr(obj, "vt_forbidden", False):
+                    return False
+                if any(obj is x for x in self.vt_denied_objs):
                     return False
                 if getattr(obj, "vt_frozen", False):
                     return False
@@ -2214,6 +2277,151 @@ def ccall_control(ctx):
         ctx.count("ccall_controls_ok")
 
 
+# ------------------------------------------------------ decorated callables
+# Seventh part: the callable the template calls is the product of a decorator
+# chain (vt/gen/c18_wrapped.py builds the objects).  Documented rule
+# (SandboxedEnvironment.is_safe_callable: "callables are considered safe unless
+# decorated with unsafe", "recognizes func.alters_data = True"; an override
+# replaces that judgement): the object the template CALLS is judged - by
+# ordinary attribute lookup on it, or by whatever the override looks at.  What a
+# decorator copied onto its product (functools.update_wrapper copies __dict__)
+# counts, what it did not copy does not.
+def wrapped_reference_refuses(obj, envkind, denied):
+    """The documented verdict for calling obj (True = must be refused)."""
+    if getattr(obj, "unsafe_callable", False) or getattr(obj, "alters_data", False):
+        return True
+    if envkind == "override":
+        if getattr(obj, "vt_forbidden", False):
+            return True
+        if any(obj is x for x in denied):
+            return True
+    return False
+
+
+def wrapped_render(case, twin):
+    from jinja2.exceptions import SecurityError
+
+    rec = Rec()
+
+    def body():
+        rec.calls += 1
+        return Ret(1)
+    f, denied, info = WR.build(case["chain"], case["position"], case["mark"], body, twin=twin)
+    source, templates = compose(case)
+    env = get_env(case["env"], case["async"], templates, case.get("ext", "do"))
+
+    class Holder:
+        pass
+    o = Holder()
+    o.m = f
+    data = {"f": f, "o": o, "d": {"f": f, "k": {"g": f}}, "l": [f], "t": (f,),
+            "nested": [{"f": [f]}]}
+    if case["env"] == "override":
+        env.vt_denied_objs = tuple(denied)
+    try:
+        out = env.from_string(source).render(**data)
+        exc = None
+    except SecurityError as e:
+        out, exc = None, ("SecurityError", str(e)[:200])
+    except Exception as e:
+        out, exc = None, (type(e).__name__, str(e)[:200])
+    finally:
+        if case["env"] == "override":
+            env.vt_denied_objs = ()
+    return rec.calls, out, exc, source, templates, f, denied, info
+
+
+def wrapped_valid(case):
+    if case["wrap"] == "aloop" and not case["async"]:
+        return False
+    if case["mark"] in ("override", "deny_object") and case["env"] != "override":
+        return False
+    return WR.valid(case["chain"], case["position"], case["mark"])
+
+
+def run_wrapped_case(ctx, case, count=True):
+    """-> True if reached (the marker-free twin of the same chain runs)."""
+    calls, out, exc, source, templates, _, _, _ = wrapped_render(case, twin=True)
+    if count:
+        ctx.ev()
+        ctx.count("wrapped_twin_renders")
+    if calls == 0 or (exc is not None and exc[0] == "SecurityError"):
+        if count:
+            ctx.count("wrapped_unreached")
+        return False
+    mcalls, mout, mexc, _, _, f, denied, info = wrapped_render(case, twin=False)
+    refused = wrapped_reference_refuses(f, case["env"], denied)
+    inner_refused = wrapped_reference_refuses(info["inner"], case["env"], denied)
+    sec = mexc is not None and mexc[0] == "SecurityError"
+    if count:
+        ctx.ev()
+        ctx.count("wrapped_cases")
+        ctx.count("wrapped_chain:" + case["chain"])
+        ctx.count("wrapped_position:" + case["position"])
+        ctx.count("wrapped_mark:" + case["mark"])
+        ctx.count("wrapped_refused_expected" if refused else "wrapped_allowed_expected")
+        if refused and not inner_refused:
+            ctx.count("wrapped_refused_though_innermost_unmarked")
+        if inner_refused and not refused:
+            ctx.count("wrapped_allowed_though_innermost_marked")
+        if hasattr(f, "__wrapped__"):
+            ctx.count("wrapped_dunder_wrapped_cases")
+        if case["async"]:
+            ctx.count("wrapped_async_cases")
+        if case["env"] == "override":
+            ctx.count("wrapped_override_env_cases")
+        ctx.dist(["wrapped"] + [case[k] for k in ("chain", "position", "mark", "obtain", "wrap", "site",
+                                                  "args", "env", "async")] + [case.get("ext", "do")])
+    full = dict(case, wrapped=True, source=source, templates=templates)
+    mech = f"chain={case['chain']}:marker={case['position']}:mark={case['mark']}"
+    info_s = (f"{source!r} {templates or ''} (env {case['env']}, extensions {case.get('ext', 'do')}, "
+              f"async={case['async']}); the called object is a {case['chain']} product with the "
+              f"{case['mark']} marker placed {case['position']}; judged by itself it is "
+              f"{'unsafe' if refused else 'safe'} (its innermost function: "
+              f"{'unsafe' if inner_refused else 'safe'})")
+    if refused:
+        if mcalls:
+            ctx.violation("wrapped-invoked:" + mech,
+                          f"a decorated callable the sandbox deems unsafe ran {mcalls}x: {info_s}; "
+                          f"outcome {mexc or mout!r}", full)
+        elif not sec:
+            ctx.violation("wrapped-no-security-error:" + mech,
+                          f"marker-free twin is invoked {calls}x, the marked callable was not, but "
+                          f"{info_s} gave {mexc or mout!r} instead of SecurityError", full)
+        elif count:
+            ctx.count("wrapped_security_errors")
+    else:
+        if sec or not mcalls:
+            ctx.violation("wrapped-wrongly-blocked:" + mech,
+                          f"the called object carries no true marker and is not rejected by the policy, "
+                          f"the marker-free twin is invoked {calls}x, but {info_s} gave "
+                          f"invocations={mcalls}, outcome {mexc or mout!r}", full)
+        elif count:
+            ctx.count("wrapped_allowed_calls")
+    return True
+
+
+def wrapped_case_for(j, chain, position, mark, site):
+    obs, wrs = list(OBTAIN), [w for w in WRAP if w != "aloop"]
+    return {"chain": chain, "position": position, "mark": mark, "obtain": obs[j % len(obs)],
+            "wrap": wrs[(j // 2) % len(wrs)] if j % 3 == 0 else "none", "site": site,
+            "args": WR.ARGS[j % len(WR.ARGS)],
+            "env": "override" if mark in ("override", "deny_object") else ENVS[j % 3],
+            "async": j % 4 == 0, "ext": EXTS[(j // 3) % 4]}
+
+
+def wrapped_random_case(rng):
+    while True:
+        chain, position, mark = rng.choice(WR.rows())
+        c = {"chain": chain, "position": position, "mark": mark,
+             "obtain": rng.choice(list(OBTAIN)), "wrap": rng.choice(list(WRAP)),
+             "site": rng.choice(list(SITES)), "args": rng.choice(WR.ARGS),
+             "env": "override" if mark in ("override", "deny_object") else rng.choice(ENVS),
+             "async": rng.random() < 0.3, "ext": rng.choice(EXTS)}
+        if wrapped_valid(c):
+            return c
+
+
 def run(ctx):
     import warnings
 
@@ -2338,6 +2546,29 @@ def run(ctx):
     for _ in range(30 if quick else 1000):
         run_flag_case(ctx, flag_random_case(rng))
     ctx.count("flag_core_cases", nflag)
+    # decorated callables: (chain, marker position, mark) rows x rotating sites
+    nwr = 0
+    ws = 0
+    per_row = 3 if quick else 8
+    t_wr = ctx.elapsed()
+    for i, (chain, position, mark) in enumerate(WR.rows()):
+        if not ctx.mine(i):
+            continue
+        for k in range(per_row):
+            j = i * 7 + k * 11 + ctx.seed
+            # the first case of a row sits at the print site (always reached)
+            case = wrapped_case_for(j, chain, position, mark, "print" if k == 0 else sites[j % len(sites)])
+            if not wrapped_valid(case):
+                continue
+            nwr += 1
+            if run_wrapped_case(ctx, case) and ws < 1 and ctx.shard in (13, 14):
+                ws += 1
+                ctx.sample(dict(case, source=compose(case)[0]))
+    rng = ctx.rng("wrappedrand")
+    for _ in range(30 if quick else 300):
+        run_wrapped_case(ctx, wrapped_random_case(rng))
+    ctx.count("wrapped_core_cases", nwr)
+    ctx.extra["wrapped_part_seconds_all_shards"] = round(ctx.elapsed() - t_wr, 2)
     rng = ctx.rng("rand")
     n_max = 900 if quick else 40000
     i = 0
@@ -2361,6 +2592,8 @@ def replay(ctx, case):
         run_helper_case(ctx, case, count=False)
     elif case.get("flags"):
         run_flag_case(ctx, case, count=False)
+    elif case.get("wrapped"):
+        run_wrapped_case(ctx, case, count=False)
     elif case.get("bm"):
         run_bm_case(ctx, case, count=False)
     elif case.get("cc"):
